@@ -31,7 +31,9 @@ def monitor(cfg, events, trace, obs):
     st = {"startd": None,          # None: no start Deferred; False: pending; True: fired
           "clean": False,          # a stop()/shutdown completed and since then neither start() nor a manual commit()
           "shut_pending": 0,       # shutdown Deferreds handed out and not yet fired
-          "waiting": False}        # an accepted shutdown() is waiting for the processor result that was pending
+          "waiting": False,        # an accepted shutdown() is waiting for the processor result that was pending
+          "fresh": False,          # started and nothing delivered yet since (restartable: it must deliver again)
+          "fetch_off": None}       # offset of the last FetchRequest
     plan = []
 
     def stop_returned(i, pos, outs, value, who):
@@ -65,6 +67,7 @@ def monitor(cfg, events, trace, obs):
             if st["startd"] is False:
                 bad.append(("C13_start_once", i, "start() accepted while the previous start Deferred is still pending"))
             st["startd"], st["clean"] = False, False
+            st["fresh"] = True
             # ---- C13_restartable: the (re)started consumer sends its first request in the same call
             if not any(o[0] in (L.OUT_FETCH, L.OUT_OFFREQ, L.OUT_OFFFETCH) for o in outs):
                 bad.append(("C13_restartable", i, "start() returned without sending a request"))
@@ -82,6 +85,17 @@ def monitor(cfg, events, trace, obs):
                         bad.append(("C13_shutdown_waits", i, "shutdown() did not wait for the processing in progress: %r during %s" % (o, L.EV_NAMES[t])))
         if t == L.EV_PROC_FIRE and outs[:1] != [(L.OUT_IGNORED,)]:
             st["waiting"] = False
+        # ---- C13_restartable, second half: a (re)started consumer delivers again (flags of an interrupted shutdown not stuck)
+        for o in outs:
+            if o[0] == L.OUT_FETCH:
+                st["fetch_off"] = o[1]
+        if t in (L.EV_STOP, L.EV_SHUTDOWN) or any(o[0] in (L.OUT_RET, L.OUT_RAISED) for o in outs if t not in (L.EV_START, L.EV_COMMIT)):
+            st["fresh"] = False
+        if st["fresh"] and t == L.EV_FETCH_OK and outs[:1] != [(L.OUT_IGNORED,)] and st["fetch_off"] is not None and \
+                ev[1] == sorted(ev[1]) and any(x >= st["fetch_off"] for x in ev[1]) and st["startd"] is False:
+            if not any(o[0] == L.OUT_CALLPROC for o in outs):
+                bad.append(("C13_restartable", i, "the (re)started consumer received messages %r at fetch offset %d and did not call the processor" % (ev[1], st["fetch_off"])))
+            st["fresh"] = False
         # ---- walk the outputs in order
         inside = 0          # API call the processor is making right now (0: none)
         top_call = {L.EV_STOP: 1, L.EV_COMMIT: 2, L.EV_SHUTDOWN: 3}.get(t, 0)
@@ -366,6 +380,16 @@ def run(ck):
         cfg, evs, _ = L.gen_case(rnd, rnd.choice([15, 30, 45, 70 if thorough else 45]), weights=C13_WEIGHTS)
         gen.append((cfg, evs))
     batches.append(("state-aware random event sequences, stop/shutdown/commit-heavy weights", gen))
+    # long fetches: many processor blocks in one reply (the model recurses once per block where the code loops; the fuel
+    # field of the case line is derived from the input size, consumer_lib.fuel_for)
+    longf = []
+    for _ in range(12 * scale):
+        k = rnd.choice([20, 35, 70, 120])
+        cfg = L.gen_cfg(rnd, group=1, acn=rnd.choice([1, 1, 3]), acs=0)
+        evs = [(L.EV_START, 0)] + [(L.EV_PLAN, 0, 0)] * rnd.choice([k, k // 2]) + [(L.EV_FETCH_OK, list(range(k)), 0)]
+        evs += [rnd.choice([(L.EV_STOP,), (L.EV_SHUTDOWN,), (L.EV_COMMIT_OK,)]), (L.EV_COMMIT_OK,), (L.EV_STOP,)]
+        longf.append((cfg, evs))
+    batches.append(("long fetches: 20-120 processor blocks in one reply, then stop/shutdown", longf))
     if thorough:
         ex = []
         for cfg in (L.Cfg(group=1, acn=1, acs=1, maxatt=0), L.Cfg(group=1, acn=0, acs=0, maxatt=2), L.Cfg(group=0, maxatt=0)):
